@@ -607,9 +607,15 @@ func monitorRoundTrip(o *vh.Out, w *world, q reqSpec, first outcome) {
 	// follow the redirect(s) the way a client does
 	cur, out := reqSpec{}, first
 	for hop := 0; hop < 4 && out.status == 301 && out.loc != nil; hop++ {
+		// a label the gateway PRODUCED (CID re-encoding, inlining) must fit; an id that is neither a CID nor
+		// a name with a DNSLink record is passed through unchanged, whatever its length
 		label := strings.SplitN(out.loc.Host, ".", 2)[0]
 		if len(label) > 63 {
-			o.Fail("label-too-long", "Location host %q", out.loc.Host)
+			if strings.HasPrefix(out.loc.Host, id+"."+ns+".") {
+				o.Kind("passthrough-long-label")
+			} else {
+				o.Fail("label-too-long", "Location host %q", out.loc.Host)
+			}
 		}
 		cur = reqSpec{host: out.loc.Host, path: out.loc.Path, rawq: out.loc.RawQuery, https: out.loc.Scheme == "https"}
 		out = w.do(cur)
